@@ -42,6 +42,8 @@ def alphabet(dt, rich):
     A.append(L.tick(dt, "T21", [["R", 0, 2.3]]))
     A.append(L.tick(dt, "RM1", [["C", 0, None]]))
     A.append(L.tick(dt, "IP", [["C", 0, None]]))
+    # a placement issued just before the suspension arrives (still in flight when the next request is refused)
+    A.append(L.tick(dt, "SUS", [L.P("PBn")]))
     return A
 
 
@@ -50,8 +52,9 @@ def _run(args):
     return L.run_history(hist, ENABLED, cfg)
 
 
-CFGS_Q = [dict(name="fast", dt=200), dict(name="slow", dt=100), dict(name="slow-nopersist", dt=100, persistence=False)]
-CFGS_T = [dict(name="fast-rich", dt=200, rich=True), dict(name="slow", dt=100), dict(name="slow-nopersist", dt=100, persistence=False), dict(name="slower", dt=60)]
+NOISO = dict(name="fast-noiso", dt=200, config=dict(simulated_strategy_isolation=False))
+CFGS_Q = [dict(name="fast", dt=200), dict(name="slow", dt=100), dict(name="slow-nopersist", dt=100, persistence=False), NOISO]
+CFGS_T = [dict(name="fast-rich", dt=200, rich=True), dict(name="slow", dt=100), dict(name="slow-nopersist", dt=100, persistence=False), dict(name="slower", dt=60), NOISO]
 
 
 def run(tier):
